@@ -59,17 +59,3 @@ class Known:
 
     def report_unreplayed(self) -> None:
         self.run.cov["known_finding_hits"] = dict(self.hits)
-
-
-def f17_feature(ids_in: list[str], ids_out: list[str], methods_out: list[str]) -> bool:
-    """Attribution of F17: every group of operations that ended up with one method name contains at most one
-    operation whose id the pass left unchanged - i.e. the clash involves a suffixed id that was neither
-    re-checked against, nor recorded in, the set of taken names.  Two *unchanged* ids sharing a method name
-    would be a different failure (no de-duplication at all) and is not covered."""
-    groups: dict[str, list[int]] = {}
-    for k, m in enumerate(methods_out):
-        groups.setdefault(m, []).append(k)
-    clash = [g for g in groups.values() if len(g) > 1]
-    if not clash:
-        return False
-    return all(sum(1 for k in g if ids_in[k] == ids_out[k]) <= 1 for g in clash)
